@@ -36,9 +36,26 @@ QWIRINGS = {
     # the divisor owns two of the dividend's outputs and reads a variable the quotient must produce:
     # the dividend's guarantees are refined through chains over both eliminated variables
     "owned-chain": ([], ["v", "w", "x"], ["z"], ["v", "w"], []),
+    # dividend and divisor read the same three inputs, which the dividend's assumptions couple: the dividend's
+    # guarantee is refined by eliminating all three (Kaykobad matrix of tactic 1)
+    "three-shared-inputs": (["y0", "y1", "y2"], ["o"], ["y0", "y1", "y2"], ["w"], ["y0"]),
+    # the divisor owns two dividend outputs and ties them to three outputs of its own by a non-symmetric set of rows
+    "owned-pair": ([], ["o", "y1", "y2"], [], ["y1", "y2", "w1", "w2", "w3"], ["w1"]),
 }
 
 CURATED = [
+    (
+        "three-shared-inputs",
+        "three-shared-inputs",
+        {"in": ["y0", "y1", "y2"], "out": ["o"], "a": [{"y0": 1, "y1": 0.6}, {"y1": 1}, {"y1": 0.6, "y2": 1}, {"y1": -1}], "g": [{"o": 1, "y0": 1, "y1": 1, "y2": 1}]},
+        {"in": ["y0", "y1", "y2"], "out": ["w"], "a": [], "g": [{"w": 1}]},
+    ),
+    (
+        "owned-pair",
+        "owned-pair",
+        {"in": [], "out": ["o", "y1", "y2"], "a": [], "g": [{"o": 1, "y1": 1, "y2": 1}]},
+        {"in": [], "out": ["y1", "y2", "w1", "w2", "w3"], "a": [], "g": [{"y1": 1, "w1": -1}, {"y1": 1, "y2": -1, "w2": -1}, {"y2": 1, "w3": -1}, {"w1": 1}, {"w2": 1}, {"w3": 1}]},
+    ),
     (
         "owned-chain-lower",
         "owned-chain",
@@ -94,6 +111,8 @@ def jobs(tier, seed):
         for add in ([], cand[:1], cand):
             for simp in (True, False):
                 for tac in orders:
+                    if name in ("three-shared-inputs", "owned-pair") and tac not in (None, [1], [5], [1, 2, 3, 4, 5]):
+                        continue  # expensive shapes: the orders that reach tactics 1 and 5 first
                     if tier == "quick" and rng.random() < 0.4:
                         continue
                     out.append({"kind": "curated:" + name, "wiring": w, "c": c, "c1": c1, "add": add, "simplify": simp, "tactics": tac})
@@ -105,12 +124,36 @@ def jobs(tier, seed):
         ci, co, di, do, cand = QWIRINGS[w]
         c = CS.rand_contract(rng, ci, co, alphabet, na=(0, 1, 2))
         c1 = CS.rand_contract(rng, di, do, alphabet, na=(0, 1, 1))
+        if w == "three-shared-inputs":
+            sgn = rng.choice([-1, 1])
+            rows = []
+            for r, dv in enumerate(ci):
+                row = {dv: 1}
+                for v in ci:
+                    if v != dv and rng.random() < 0.5:
+                        row[v] = rng.choice([0.4, 0.5, 0.6, 0.6, 0.75])
+                rows.append({k: sgn * v for k, v in row.items()})
+            c = {"in": ci, "out": co, "a": rows + ([{"y1": -sgn}] if rng.random() < 0.5 else []), "g": [dict({v: sgn for v in ci}, o=sgn)]}
+            c1 = {"in": di, "out": do, "a": [], "g": [{"w": rng.choice([-1, 1])}]}
+        if w == "owned-pair":
+            sg = lambda: rng.choice([-1, 1])  # noqa: E731
+            s1, s2 = sg(), sg()
+            c = {"in": [], "out": co, "a": [], "g": [{"o": 1, "y1": s1 * rng.choice([1, 2]), "y2": s2 * rng.choice([1, 2])}]}
+            g1 = [{"y1": s1, "w1": -1}, {"y1": s1, "y2": -s2 * rng.choice([1, 1, 2]), "w2": -1}, {"y2": s2, "w3": -1}, {"w1": 1}, {"w2": 1}, {"w3": 1}]
+            if rng.random() < 0.5:
+                rng.shuffle(g1)
+            c1 = {"in": [], "out": do, "a": [], "g": g1}
         if w == "owned-chain":
             sg = lambda: rng.choice([-2, -1, 1, 2])  # noqa: E731
             c = {"in": [], "out": co, "a": [], "g": [{"x": sg(), "v": sg()}] + ([{"x": sg(), "w": sg()}] if rng.random() < 0.3 else [])}
             c1 = {"in": di, "out": do, "a": [], "g": [{"v": sg(), "w": sg(), "z": sg()}, {"w": sg()}] + ([{"w": sg()}] if rng.random() < 0.7 else []) + ([{"v": sg(), "z": sg()}] if rng.random() < 0.3 else [])}
         add = [v for v in cand if rng.random() < 0.3]
-        out.append({"kind": "random:" + w, "wiring": w, "c": c, "c1": c1, "add": add, "simplify": rng.random() < 0.6, "tactics": rng.choice(orders)})
+        tac = rng.choice(orders)
+        if w == "owned-pair":
+            tac = rng.choice([[5, 1, 2, 3, 4], [5], [5, 4], None])
+        if w == "three-shared-inputs":
+            tac = rng.choice([None, [1], [1, 2, 3, 4, 5], [3]])
+        out.append({"kind": "random:" + w, "wiring": w, "c": c, "c1": c1, "add": add, "simplify": rng.random() < 0.6, "tactics": tac})
     return out
 
 
